@@ -1447,6 +1447,9 @@ class DocutilsRenderer(RendererProtocol):
         bibliofields = get_language(language_code).bibliographic_fields
 
         for key, value in data.items():
+            if not isinstance(key, str):
+                # e.g. a number, or bytes from a ``!!binary`` key (not accepted as text)
+                key = str(key)
             if not isinstance(value, str | int | float | date | datetime):
                 try:
                     value = json.dumps(value, default=str)
